@@ -97,6 +97,15 @@ def mk(flags, cached):
     subs, looks, calls, cses, comp = flags
     cls = CachedDependencyMapper if cached else DependencyMapper
     _mk_n[0] += 1
+    if _mk_n[0] % 4 == 0:
+        # flags that ARE true / false without being the singletons True / False: the result of a
+        # numpy comparison (np.bool_) or 1 / 0 from a configuration file
+        import numpy as np
+        conv = (lambda v: np.bool_(v) if isinstance(v, bool) else v) if _mk_n[0] % 8 == 0 \
+            else (lambda v: int(v) if isinstance(v, bool) else v)
+        # (composite_leaves is a three-state flag None / True / False told apart by identity:
+        #  it is handed over as it is)
+        subs, looks, calls, cses = (conv(v) for v in (subs, looks, calls, cses))
     if _mk_n[0] % 3 == 0:
         return cls(subs, looks, calls, cses, comp)
     if _mk_n[0] % 3 == 1:
